@@ -3,6 +3,9 @@ import Driver.File
 import Driver.Proto
 import Driver.Conc
 import Driver.Proc
+import Driver.LayerC
+import Jamm.Model.CommitInv
+import Jamm.Model.CommitTight
 import Std.Data.HashMap
 open Driver Jamm
 
@@ -32,6 +35,10 @@ structure Loop where
   protoChecked : Nat := 0
   protoOff : Bool := false
   refused : Bool := false
+  pretrees : List (String × Bool × CTree) := []
+  notes : Option (List Note) := none
+  layerC : Nat := 0
+  layerCSteps : Nat := 0
   /-- a fault was armed for the next commit (C11) -/
   faultArmed : Bool := false
   /-- after a commit that returned an I/O error: the state before it (the model holds the state after it) -/
@@ -46,6 +53,7 @@ def Loop.endHist (l : Loop) : IO Unit := do
     match l.proto with
     | some p => IO.println s!"PROTO {l.cur} commits-checked={p.checked} maxNonFree={p.maxNonFree} maxGrowth={p.maxReq} numPages={p.sys.numPages} invariant=ok"
     | none => pure ()
+    if l.layerC > 0 then IO.println s!"STAT layerc_buckets_compared={l.layerC} layerc_rebalance_steps_replayed={l.layerCSteps}"
     if !l.failed || l.refused then IO.println s!"RESULT {l.cur} OK ops={l.nOps}"
 
 /-- one transcript line -/
@@ -65,7 +73,7 @@ def stepLine (l : Loop) (line : String) : IO Loop := do
   if op == "hist" then
     l.endHist
     return { l with st := {}, cur := f.getD 1 "?", nOps := 0, failed := false, nHist := l.nHist + 1,
-                    proto := none, lastFile := none, commitsSinceFile := 0, protoOff := false, refused := false }
+                    proto := none, lastFile := none, commitsSinceFile := 0, protoOff := false, refused := false, pretrees := [], notes := none, layerC := 0, layerCSteps := 0 }
   if l.failed then return l
   let r := stepOp l.st f
   let l := { l with cnt := bump l.cnt (op ++ "/" ++ outcomeClass got) }
@@ -101,6 +109,8 @@ def stepLine (l : Loop) (line : String) : IO Loop := do
   let l := { l with st := r.st, nOps := l.nOps + 1 }
   match op with
   | "fhash" => return { l with st := { l.st with lastHash := some got } }
+  | "pretrees" => return { l with pretrees := parsePretrees got, notes := none }
+  | "notes" => return { l with notes := some (parseNotes got) }
   | "fault" => return { l with faultArmed := got == "ok" }
   | "limit" => return { l with faultArmed := (f.getD 1 "inf") != "inf" }
   | "commit" =>
@@ -129,6 +139,39 @@ def stepLine (l : Loop) (line : String) : IO Loop := do
       return ← l.fail "FILEBAD" s!"op=[{lhs}] detail=[{rep.msg}] numPages={rep.numPages} txId={rep.txId}"
     if rep.dump != want then
       return ← l.fail "FILEDIFF" s!"op=[{lhs}] expected=[{want}] got=[{rep.dump}]"
+    -- Layer C: the model's rebalance replay + spill, applied to the overlay trees seen before the commit,
+    -- must give the shape of the trees the real commit wrote
+    let mut l := l
+    match l.notes, rep.view with
+    | some notes, some root =>
+      for (path, dirty, pre) in l.pretrees do
+        let names := if path == "-" then [] else (path.splitOn "/").map unhex
+        let rec find (v : BucketView) : List Bytes → Option BucketView
+          | [] => some v
+          | n :: rest => match v.subs.find? (fun s => s.1 == n) with
+            | some s => find s.2 rest
+            | none => none
+        match find root names with
+        | none => pure ()   -- deleted in this transaction
+        | some v =>
+          -- the Layer C invariants are evaluated on what the real code had before and wrote after
+          if !(wfsb (K := Bytes) none none pre) || (uniformB pre).isNone || !(tightB (K := Bytes) none pre) then
+            return ← l.fail "INVDIFF" s!"op=[{lhs}] bucket=[{path}] the overlay tree before commit violates Sep/tightness/uniform-depth: {fmtShape pre}"
+          let post := toEntT v.tree
+          if !(wfsb (K := Bytes) none none post) || (uniformB post).isNone || !(tightB (K := Bytes) none post) || !(nebT post) then
+            return ← l.fail "INVDIFF" s!"op=[{lhs}] bucket=[{path}] the committed tree violates Sep/tightness/uniform-depth or has an empty branch"
+          if dirty then
+            let mid := rebalanced pre notes
+            if !(wfsb (K := Bytes) none none mid) || (uniformB mid).isNone || !(tightMB (K := Bytes) none mid) then
+              return ← l.fail "INVDIFF" s!"op=[{lhs}] bucket=[{path}] the model tree after the rebalance replay violates Sep/tightness-at-untouched-pages/uniform-depth: {fmtShape mid}"
+          let want := fmtShape (toEntT v.tree)
+          let pred := if dirty then predictBucket l.st.pagesize pre notes else pre
+          let got' := fmtShape pred
+          if got' != want then
+            return ← l.fail "SHAPEDIFF" s!"op=[{lhs}] bucket=[{path}] model=[{got'}] file=[{want}]"
+          l := { l with layerC := l.layerC + 1, layerCSteps := l.layerCSteps + (if dirty then (rbStepsFor pre notes).length else 0) }
+      l := { l with pretrees := [], notes := none }
+    | _, _ => pure ()
     IO.println s!"FILE {l.cur} line={l.lineNo} numPages={rep.numPages} txId={rep.txId} free={rep.free} reach={rep.reach} size={rep.fileSize}"
     return { l with cnt := bump l.cnt "file/ok",
                     lastFile := some { reach := rep.reachPages, persisted := rep.freePages, numPages := rep.numPages, txId := rep.txId } }
